@@ -125,25 +125,28 @@ def get_cached_module(module_name, object_names, cache_dir, timeout):
         )
 
 
-def _compilation_signature(cffi_extra_compile_args, cffi_debug):
+def _compilation_signature(cffi_extra_compile_args, cffi_debug, cffi_libraries=()):
     """Compute the compilation-inputs part of the signature.
 
     Used to avoid cache conflicts across Python versions, architectures, installs.
 
     - SOABI includes platform, Python version, debug flags
     - CFLAGS includes prefixes, arch targets
+    - the libraries the module is linked with
     """
     if sys.platform.startswith("win32"):
         # NOTE: SOABI not defined on win32, EXT_SUFFIX contains e.g. '.cp312-win_amd64.pyd'
         return (
             str(cffi_extra_compile_args)
             + str(cffi_debug)
+            + str(list(cffi_libraries))
             + str(sysconfig.get_config_var("EXT_SUFFIX"))
         )
     else:
         return (
             str(cffi_extra_compile_args)
             + str(cffi_debug)
+            + str(list(cffi_libraries))
             + str(sysconfig.get_config_var("CFLAGS"))
             + str(sysconfig.get_config_var("SOABI"))
         )
@@ -197,7 +200,7 @@ def compile_forms(
     # Get a signature for these forms
     module_name = "libffcx_forms_" + ffcx.naming.compute_signature(
         forms,
-        _compute_option_signature(p) + _compilation_signature(cffi_extra_compile_args, cffi_debug),
+        _compute_option_signature(p) + _compilation_signature(cffi_extra_compile_args, cffi_debug, cffi_libraries),
     )
 
     form_names = [ffcx.naming.form_name(form, i, module_name) for i, form in enumerate(forms)]
@@ -275,7 +278,7 @@ def compile_expressions(
 
     module_name = "libffcx_expressions_" + ffcx.naming.compute_signature(
         expressions,
-        _compute_option_signature(p) + _compilation_signature(cffi_extra_compile_args, cffi_debug),
+        _compute_option_signature(p) + _compilation_signature(cffi_extra_compile_args, cffi_debug, cffi_libraries),
     )
     expr_names = [
         ffcx.naming.expression_name(expression, module_name, i)
